@@ -46,6 +46,8 @@ pub enum Op {
     TryWith { ty: u8, ety: u8, ok: bool, clos: Clos, fallible: bool },
     /// `alloc_slice_try_fill_with` / `_iter`; fails at index `fail_at` (-1: never)
     TryFill { ty: u8, len: usize, fail_at: i64, iter: bool },
+    /// like TryFill, but the initialiser of element `at` also allocates in the same arena (`clos`)
+    TryFillClos { ty: u8, len: usize, fail_at: i64, iter: bool, at: usize, clos: Clos },
     /// `Allocator::allocate` / `allocate_zeroed`
     Allocate { size: usize, align: usize, zeroed: bool },
     /// `Allocator::deallocate` of live block number `b` (index into the live list, modulo)
@@ -1009,8 +1011,23 @@ fn do_try_with<const M: usize, T: Copy + 'static, E: Copy + 'static>(
     fix_init(st);
 }
 
-fn do_try_fill<const M: usize, T: Copy + 'static>(st: &mut St<M>, len: usize, fail_at: i64, iter: bool) {
+fn do_try_fill<const M: usize, T: Copy + 'static>(st: &mut St<M>, len: usize, fail_at: i64, iter: bool, at: usize, clos: &Clos) {
     let mut ev = base_event(if iter { "alloc_slice_try_fill_iter" } else { "alloc_slice_try_fill_with" });
+    {
+        // the initialiser of element `at` allocates in the same arena (only if that callback is reached)
+        let reached = at < len && (fail_at < 0 || at as i64 <= fail_at);
+        let (ck, cn) = match clos {
+            Clos::Nothing => (0, 0),
+            Clos::Keep(n) => (1, *n as i64),
+            Clos::Release(n) => (2, *n as i64),
+            Clos::Zst => (3, 0),
+        };
+        if reached && ck != 0 {
+            ev.clos = format!("{:?}@{}", clos, at);
+            ev.closk = ck;
+            ev.closn = cn;
+        }
+    }
     let esz = std::mem::size_of::<T>();
     ev.size = (esz * len) as i64;
     ev.align = std::mem::align_of::<T>() as i64;
@@ -1033,8 +1050,14 @@ fn do_try_fill<const M: usize, T: Copy + 'static>(st: &mut St<M>, len: usize, fa
         };
         let mut f = |i: usize| -> Result<T, ErrTok<u64>> {
             cb_tick();
+            {
+                let _g = rec::pause();
+                SH.with(|s| s.borrow_mut().cb.push(i as i64));
+            }
+            if i == at {
+                run_clos(bump, clos);
+            }
             let _g = rec::pause();
-            SH.with(|s| s.borrow_mut().cb.push(i as i64));
             if fail_at >= 0 && i as i64 == fail_at {
                 Err(ErrTok { payload: 77, armed: true })
             } else {
@@ -1171,12 +1194,20 @@ fn step<const M: usize>(st: &mut St<M>, op: &Op) {
         },
         Op::TryWith { ty, ety, ok, clos, fallible } => with_ty2!(*ty, *ety, do_try_with, (st, *ok, clos, *fallible)),
         Op::TryFill { ty, len, fail_at, iter } => match ty % 6 {
-            0 => do_try_fill::<M, ()>(st, *len, *fail_at, *iter),
-            1 => do_try_fill::<M, u8>(st, *len, *fail_at, *iter),
-            2 => do_try_fill::<M, u16>(st, *len, *fail_at, *iter),
-            3 => do_try_fill::<M, u32>(st, *len, *fail_at, *iter),
-            4 => do_try_fill::<M, u64>(st, *len, *fail_at, *iter),
-            _ => do_try_fill::<M, u128>(st, *len, *fail_at, *iter),
+            0 => do_try_fill::<M, ()>(st, *len, *fail_at, *iter, usize::MAX, &Clos::Nothing),
+            1 => do_try_fill::<M, u8>(st, *len, *fail_at, *iter, usize::MAX, &Clos::Nothing),
+            2 => do_try_fill::<M, u16>(st, *len, *fail_at, *iter, usize::MAX, &Clos::Nothing),
+            3 => do_try_fill::<M, u32>(st, *len, *fail_at, *iter, usize::MAX, &Clos::Nothing),
+            4 => do_try_fill::<M, u64>(st, *len, *fail_at, *iter, usize::MAX, &Clos::Nothing),
+            _ => do_try_fill::<M, u128>(st, *len, *fail_at, *iter, usize::MAX, &Clos::Nothing),
+        },
+        Op::TryFillClos { ty, len, fail_at, iter, at, clos } => match ty % 6 {
+            0 => do_try_fill::<M, ()>(st, *len, *fail_at, *iter, *at, clos),
+            1 => do_try_fill::<M, u8>(st, *len, *fail_at, *iter, *at, clos),
+            2 => do_try_fill::<M, u16>(st, *len, *fail_at, *iter, *at, clos),
+            3 => do_try_fill::<M, u32>(st, *len, *fail_at, *iter, *at, clos),
+            4 => do_try_fill::<M, u64>(st, *len, *fail_at, *iter, *at, clos),
+            _ => do_try_fill::<M, u128>(st, *len, *fail_at, *iter, *at, clos),
         },
         Op::Allocate { size, align, zeroed } => {
             let mut ev = base_event(if *zeroed { "allocate_zeroed" } else { "allocate" });
